@@ -168,11 +168,98 @@ func VH_udp() {
 	}
 }
 
+// ---- idle expiry and resumption ---------------------------------------------------------------
+
+// gatedPC delivers datagram i only after gate i has been closed (gate 0 is open):
+// the script reacts to what the server has done so far.
+type gatedPC struct {
+	scriptPC
+	gates []chan struct{}
+}
+
+func (p *gatedPC) ReadFrom(b []byte) (int, net.Addr, error) {
+	if p.next < len(p.script) {
+		<-p.gates[p.next]
+		d := p.script[p.next]
+		p.next++
+		n := copy(b, d.data)
+		return n, addrs[d.src], nil
+	}
+	<-p.shutdown
+	return 0, nil, net.ErrClosed
+}
+
+type idleWorld struct {
+	pc    *gatedPC
+	live  int // virtual connections of the client whose Read has not reported the end yet
+	conns int
+	ends  int
+	reads [][]byte
+}
+
+type idleHandler struct{ w *idleWorld }
+
+func (h idleHandler) Handle(cx *layer4.Connection, _ layer4.Handler) error {
+	w := h.w
+	vapi.Assert(w.live == 0, "a datagram was given to a fresh virtual connection although the client's current one has not ended")
+	w.live++
+	w.conns++
+	for i := 0; i < 4; i++ {
+		p := make([]byte, 16)
+		k, err := cx.Read(p)
+		if err != nil {
+			break
+		}
+		w.reads = append(w.reads, p[:k])
+		if len(w.reads) == 2 {
+			close(w.pc.gates[2]) // the second datagram has been read: the client sends the third
+		}
+	}
+	w.live--
+	w.ends++
+	if w.ends == 1 {
+		close(w.pc.gates[1]) // the first connection has idled out: the client resumes right now
+	}
+	return nil
+}
+
+// VH_udp_idle: a client pauses for longer than the idle timeout and resumes at
+// the very moment its virtual connection ends; then sends once more. Every
+// datagram must go to the client's one current connection: a fresh one only
+// after the previous one has ended.
+func VH_udp_idle() {
+	w := &idleWorld{}
+	pc := &gatedPC{scriptPC: scriptPC{shutdown: make(chan struct{})}, gates: []chan struct{}{make(chan struct{}), make(chan struct{}), make(chan struct{})}}
+	close(pc.gates[0])
+	for i := 0; i < 3; i++ {
+		pc.script = append(pc.script, dgram{0, []byte{byte(0x41 + i)}})
+	}
+	w.pc = pc
+	rl := layer4.RouteList{layer4.VerifNewRoute(nil, []layer4.NextHandler{idleHandler{w}})}
+	s := layer4.VerifNewServer(rl, 3*time.Second)
+	done := make(chan error, 1)
+	go func() { done <- layer4.VerifServePacket(s, pc) }()
+	vapi.Yield()
+	vapi.Advance(31 * time.Second) // the first connection idles out; the client resumes
+	vapi.Yield()
+	vapi.Advance(31 * time.Second) // whatever is open idles out
+	close(pc.shutdown)
+	vapi.Yield()
+	vapi.Cover("served")
+	vapi.Assert(len(w.reads) >= 1 && w.reads[0][0] == 0x41, "the first datagram was not delivered")
+	if w.conns >= 2 {
+		vapi.Cover("resumed on a fresh connection")
+	}
+	if len(w.reads) == 3 {
+		vapi.Cover("all three datagrams read")
+		vapi.Assert(w.reads[1][0] == 0x42 && w.reads[2][0] == 0x43, "datagrams out of order")
+	}
+}
+
 // VH_partial: a datagram larger than the reader's buffer is returned by
 // successive reads exactly once, in order; then the next datagram follows.
 func VH_partial() {
-	closeCh := make(chan string, 10)
-	pc := layer4.VerifNewPacketConn(&scriptPC{shutdown: make(chan struct{})}, addrs[0], closeCh)
+	pc := layer4.VerifNewPacketConn(&scriptPC{shutdown: make(chan struct{})}, addrs[0])
 	d1 := vapi.Bytes("d1", 12)
 	d2 := vapi.Bytes("d2", 4)
 	vapi.Assume(len(d1) > 0 && len(d2) > 0)
@@ -213,5 +300,6 @@ func bytesEq(a, b []byte) bool {
 
 func init() {
 	vapi.Register("c09.VH_udp", VH_udp)
+	vapi.Register("c09.VH_udp_idle", VH_udp_idle)
 	vapi.Register("c09.VH_partial", VH_partial)
 }
